@@ -162,10 +162,15 @@ def run_case(case):
         unordered = case["kind"] == "gen" and case["gen"].get("unordered")
         if case["kind"] in ("corpus", "testsrc"):
             # does the program's output depend on the hash seed (raw map prints)?  Ask `run` again under another seed.
-            env2 = copy.deepcopy(env)
-            env2["plans"][0] = {"seed": "a5" * 16, "rules": []}
-            r2 = pipeline.leg_run(files, entry, env2, 0)[0]
-            unordered = pipeline.norm_out(r2["out"]) != ro
+            # (several other seeds: two seeds can give the same iteration order by chance)
+            unordered = False
+            for alt in ("a5", "3c", "e7", "19"):
+                env2 = copy.deepcopy(env)
+                env2["plans"][0] = {"seed": alt * 16, "rules": []}
+                r2 = pipeline.leg_run(files, entry, env2, 0)[0]
+                if pipeline.norm_out(r2["out"]) != ro:
+                    unordered = True
+                    break
             st["probes"]["corpus_program_output_depends_on_hash_seed"] = 1 if unordered else 0
         if not unordered or pipeline.canon(ro) != pipeline.canon(eo):
             return fail("stdout-differs", "`run` and `execute` printed different output")
